@@ -224,10 +224,11 @@ def generate(cls, rng):
                           "bad_offset"])
         return dict(spec=spec, form=form, how=how,
                     daylight_first=rng.random() < 0.5)
+    from dsim import depth as DP
     spec, form = gen_zone_spec(rng)
     small = cls == "threads"
     nyears = rng.choice([3, 4, 6]) if small else \
-        rng.choice([4, 8, 12, 25, 41])
+        rng.choice(DP.pick([4, 8, 12, 25, 41], [12, 25, 41, 80]))
     if form in ("rdate", "rrule_count"):
         # finite components: the number of onsets around the recurrence
         # cache's batch size of ten matters
@@ -251,15 +252,17 @@ def generate(cls, rng):
         pool = [gen_query(rng, nyears) for _ in range(rng.choice([3, 12, 14,
                                                                   20]))]
         ops = []
-        for _ in range(rng.randrange(10, 60)):
+        for _ in range(rng.randrange(10, DP.pick(60, 180))):
             ops.append(rng.choice(pool) if rng.random() < 0.7
                        else gen_query(rng, nyears))
         sc["ops"] = ops
         return sc
     pool = [gen_query(rng, nyears, small=True)
             for _ in range(rng.choice([2, 4, 12]))]
-    sc["threads"] = [[rng.choice(pool) for _ in range(rng.randrange(1, 7))]
-                     for _ in range(rng.choice([1, 2, 2, 3]))]
+    sc["threads"] = [[rng.choice(pool)
+                      for _ in range(rng.randrange(1, DP.pick(7, 14)))]
+                     for _ in range(rng.choice(DP.pick([1, 2, 2, 3],
+                                                       [2, 3, 4, 4])))]
     kind = rng.choice(["random", "random", "pb", "pct"])
     if rng.random() < 0.4:
         # cold start: every thread's first query races on components whose
